@@ -3,6 +3,7 @@
 Two real threads run small programs over the fake procfs of c04.Impl
 
     iter        out = [p for p in psutil.process_iter()]      (one next() per loop turn)
+    iter attrs  out = [p for p in psutil.process_iter(attrs=[...])]   (programs attrs_name / attrs_name_warm)
     clear       psutil.process_iter.cache_clear()
     is_running  <object yielded by the warm-up iteration>.is_running()     (flags a recycled PID)
 
@@ -29,6 +30,12 @@ for all (a, b) x a pool of event placements (thorough / search; quick: a stratif
 the item-boundary schedules with three pre-emptions (A i items · B j items · A k items · B to the
 end · A to the end, and B first; always all of them for small tables).
 
+Directed schedules (programs with `attrs`, BOTH tiers, never sampled): the thread that iterates with attrs is parked at
+every scheduling point between `Process(pid)` having succeeded inside `add(pid)` and the `as_dict` call of the same loop
+turn (for a cached PID: at the `if attrs is not None` / `as_dict` lines), the kernel event "exit of that PID" is injected
+at that hand-over, the other thread runs 0 / half / all of its points. So `add(pid)` succeeds, `as_dict` raises
+NoSuchProcess and `remove(pid)` has to run for a PID that is in `new_pids`.
+
 Oracle — written from the property statement only:
   * no exception escapes from process_iter() / cache_clear() / is_running();
   * the PIDs one iteration yields are strictly ascending (hence no duplicates);
@@ -37,7 +44,12 @@ Oracle — written from the property statement only:
     left out only if it vanished) — except a PID flagged by is_running() (known finding
     C04-flagged-pid-skipped, reported as such);
   * after both threads finished, a sequential process_iter() yields exactly the listed PIDs (twice in a
-    row, the second time the very same objects), and nothing raises.
+    row, the second time the very same objects), and nothing raises;
+  * programs with `respawn`: before that sequential iteration every PID number that exited during the run is taken
+    again by a process with ANOTHER start time. A Process object that process_iter() hands out for the FIRST time (never
+    yielded before, to anybody) must describe the process that holds the PID now (`is_running()` True) — a cache entry
+    left behind for a process that vanished before it was ever yielded is thereby a failing input;
+  * an iteration with attrs=[names] yields objects whose `.info` has exactly those keys.
 
 Item-boundary schedules are, in addition, put through the Lean model: there a run IS a history
 `iter; iter; next g…` with kernel events in between (`Op.next g mid`, theorem C04_overlap_safety speaks
@@ -112,6 +124,11 @@ class Explorer:
                               if ins.opname == "STORE_GLOBAL" and ins.argval == "_pmap" and ins.positions}
         if not self.publish_lines:
             raise Drift("process_iter: no `_pmap = ...` statement found")
+        self.asdict_lines = {ins.positions.lineno for ins in dis.get_instructions(self.gen_code)
+                             if ins.opname in ("LOAD_ATTR", "LOAD_METHOD") and ins.argval == "as_dict" and ins.positions}
+        if not self.asdict_lines:
+            raise Drift("process_iter: no call of as_dict found")
+        self.ptrace = None          # tid -> labels of the scheduling points passed (probe runs only)
         init = ps.Process._init.__code__
         self.init_code = init
         self.init_lines = set()
@@ -131,13 +148,13 @@ class Explorer:
             return self._local_body
         if code is self.init_code:
             if not self.free:
-                self._point("points")
+                self._point("points", ("init", "call", None))
             return self._local_init
         return None
 
     def _local_init(self, frame, event, arg):
         if event == "line" and frame.f_lineno in self.init_lines and not self.free:
-            self._point("points")
+            self._point("points", ("init", "ident", frame.f_locals.get("pid")))
         return self._local_init
 
     def _local_body(self, frame, event, arg):
@@ -147,12 +164,18 @@ class Explorer:
             return self._local_body
         if event == "line":
             self._last = (id(frame), frame.f_lasti)
-            self._point("points")
+            if self.ptrace is None:
+                self._point("points")
+            else:
+                gen = frame.f_code is self.gen_code
+                self._point("points", ("gen" if gen else frame.f_code.co_name,
+                                       "as_dict" if gen and frame.f_lineno in self.asdict_lines else frame.f_lineno,
+                                       frame.f_locals.get("pid") if gen else None))
         elif event == "opcode":
             kind = self.shared[frame.f_code].get(frame.f_lasti)
             if self.gran == "opcode" or kind is not None:
                 if self._last != (id(frame), frame.f_lasti):
-                    self._point("points")
+                    self._point("points", ("op", None, None))
             self._last = None
             if kind == "after" and frame.f_code is self.gen_code:
                 # the drain loop: the truth test / the pop() happen now (no scheduling point before they complete
@@ -173,8 +196,10 @@ class Explorer:
             rec = self.fine[id(frame)] = {"frame": frame, "tid": self.tids.get(threading.get_ident()), "copy": None,
                                           "listing": None, "popped": [], "pop_err": False, "ls": None, "nsp": [],
                                           "yields": [], "pmap": None, "pending": False, "keep": [], "exc": None,
-                                          "order": len(self.fine)}
+                                          "order": len(self.fine), "has_attrs": None}
         loc = frame.f_locals
+        if rec["has_attrs"] is None and "attrs" in loc:
+            rec["has_attrs"] = loc["attrs"] is not None        # the generator frame's own argument
         if event == "line":
             if rec["pending"]:                       # the `pop()` statement completed: its value is in `pid`
                 rec["popped"].append(int(loc["pid"]))
@@ -196,6 +221,8 @@ class Explorer:
                 rec["pop_err"] = True
                 rec["pending"] = False
             elif name == "NoSuchProcess":
+                # `proc` still None: raised by Process(pid) inside add(pid); otherwise add(pid) succeeded (or the object
+                # was cached) and the exception comes out of as_dict
                 rec["nsp"].append((int(loc["pid"]), loc.get("proc") is None))
             elif name not in ("StopIteration", "GeneratorExit"):
                 rec["exc"] = name
@@ -204,10 +231,12 @@ class Explorer:
                 rec["yields"].append((int(arg.pid), id(arg)))
                 rec["keep"].append(arg)
 
-    def _point(self, kind):
+    def _point(self, kind, where=None):
         tid = self.tids.get(threading.get_ident())
         if tid is None:
             return
+        if self.ptrace is not None and kind == "points":
+            self.ptrace.setdefault(tid, []).append(where)
         self.npoints[tid][kind] += 1
         mode, n = self.budget[tid]
         if mode is None:
@@ -235,12 +264,15 @@ class Explorer:
             for item in prog:
                 v0 = self.version
                 rec = {"item": item[0], "v0": v0}
+                if item[0] == "iter" and len(item) > 1:
+                    rec["attrs"] = item[1]
                 log.append(rec)
                 try:
                     if item[0] == "iter":
                         out = rec["out"] = []
-                        g = ps.process_iter()
-                        self.glog.append(("iter", tid))
+                        attrs = list(item[1]) if len(item) > 1 and item[1] is not None else None
+                        g = ps.process_iter() if attrs is None else ps.process_iter(attrs=list(attrs))
+                        self.glog.append(("iter", tid, attrs))
                         while True:
                             self._point("items")
                             try:
@@ -249,7 +281,13 @@ class Explorer:
                                 self.glog.append(("next", tid, None))
                                 break
                             out.append((int(p.pid), self.impl._canon(p)))
-                            self.glog.append(("next", tid, out[-1]))
+                            info = None
+                            if attrs is not None:
+                                d = getattr(p, "info", None)
+                                info = sorted(d.keys()) if isinstance(d, dict) else "<no info dict>"
+                                if info != sorted(attrs):
+                                    rec.setdefault("info_bad", []).append((int(p.pid), info))
+                            self.glog.append(("next", tid, out[-1], info))
                     elif item[0] == "clear":
                         ps.process_iter.cache_clear()
                         self.glog.append(("clear", tid))
@@ -350,22 +388,50 @@ class Explorer:
                 th.join(20.0)
             if any(th.is_alive() for th in threads):
                 problem = (problem or "") + " [a worker thread did not terminate]"
-        # the sequential epilogue: two more iterations
+        # the sequential epilogue: (programs with `respawn`: every PID number that exited during the run is taken again,
+        # with another start time, then) two more iterations
         final = []
+        respawned = []
+        final_check = []
         flagged_before_final = sorted(int(x) for x in getattr(ps, "_pids_reused", ()))
         if problem is None:
+            handed_out = {c for _, c in pre}
+            for lg in self.log.values():
+                for rec in lg:
+                    handed_out.update(c for _, c in rec.get("out", ()))
+            if prog.get("respawn"):
+                ever = set().union(*[set(tb) for tb in self.tables])
+                for pid in sorted(ever - set(self.tables[-1])):
+                    self._kev({"k": "spawn", "p": {"pid": pid, "start": RESPAWN_START + pid, "zombie": False,
+                                                   "foreign": False, "status": "ok"}})
+                    respawned.append(pid)
+            first_objs = None
             for _ in range(3 if flagged_before_final else 2):
                 try:
-                    final.append([(int(p.pid), impl._canon(p)) for p in ps.process_iter()])
+                    objs = list(ps.process_iter())
+                    final.append([(int(p.pid), impl._canon(p)) for p in objs])
+                    if first_objs is None:
+                        first_objs = objs
                 except Exception as e:  # noqa: BLE001
                     final.append({"exc": type(e).__name__})
+                    break
+            # afterwards (is_running() flags recycled PIDs: it must not run between the iterations judged above): does each
+            # object of the first sequential iteration describe the process that holds its PID now, and had it been
+            # handed out before?
+            for p in first_objs or ():
+                try:
+                    alive = bool(p.is_running())
+                except Exception as e:  # noqa: BLE001
+                    alive = "exc:" + type(e).__name__
+                final_check.append((int(p.pid), impl._canon(p) not in handed_out, alive))
         fine = []
         for rec in sorted(self.fine.values(), key=lambda r: r["order"]):
-            fine.append({k: rec[k] for k in ("tid", "copy", "listing", "popped", "pop_err", "ls", "nsp", "yields", "pmap", "exc")})
+            fine.append({k: rec[k] for k in ("tid", "copy", "listing", "popped", "pop_err", "ls", "nsp", "yields", "pmap", "exc",
+                                             "has_attrs")})
         self.fine = {}
         return {"problem": problem, "pre": pre, "logs": {str(t): self.log.get(t, []) for t in range(nt)}, "fine": fine,
                 "glog": list(self.glog), "tables": [dict(t) for t in self.tables], "final": final,
-                "flagged_before_final": flagged_before_final,
+                "flagged_before_final": flagged_before_final, "respawned": respawned, "final_check": final_check,
                 "points": {str(t): dict(v) for t, v in self.npoints.items()},
                 "listed_end": sorted(p["pid"] for p in impl.k.procs)}
 
@@ -392,6 +458,9 @@ def judge(prog, run):
                 continue
             if rec["item"] != "iter":
                 continue
+            if rec.get("info_bad"):
+                bad.append(("thread %s: process_iter(attrs=%r) yielded object(s) whose .info keys differ: %r"
+                            % (t, rec.get("attrs"), rec["info_bad"]), None))
             pids = [p for p, _ in rec["out"]]
             if any(a >= b for a, b in zip(pids, pids[1:])):
                 bad.append(("thread %s: yielded PIDs not strictly ascending: %r" % (t, pids), None))
@@ -427,6 +496,14 @@ def judge(prog, run):
                         % ([p for p, _ in seqs[0]], listed), None))
         elif len(seqs) > 1 and seqs[1] != seqs[0]:
             bad.append(("two sequential iterations in a row yielded different objects: %r then %r" % (seqs[0], seqs[1]), None))
+    if not run["flagged_before_final"]:
+        for pid, first_time, alive in run.get("final_check", ()):
+            if first_time and alive is not True and pid in listed:
+                bad.append(("stale cache entry: after both threads finished%s a sequential process_iter() handed out for PID %d, "
+                            "for the first time, a Process object that is not the process holding that PID now "
+                            "(is_running() -> %r): an entry of a process that vanished before it was ever yielded was kept"
+                            % (" and PID(s) %r were re-spawned with another start time" % (run.get("respawned"),)
+                               if run.get("respawned") else "", pid, alive), None))
     return bad
 
 
@@ -458,7 +535,65 @@ PROGS = [
               "threads": [[["iter"]], [["is_running", 5], ["iter"]]]}),
     ("flagged2", {"setup": BASE, "warm": True, "after_warm": [_ex(5), _sp(5, 999)], "flag": [5],
                   "threads": [[["iter"]], [["iter"]]]}),
+    # attrs: `proc.info = proc.as_dict(...)` runs between add(pid) and the yield. Cold cache: every PID is NEW;
+    # warm: 1, 5, 9 cached and 7 new, both threads with attrs. Epilogue: exited PID numbers re-spawned (see judge).
+    ("attrs_name", {"setup": BASE, "warm": False, "respawn": True, "threads": [[["iter", ["name"]]], [["iter"]]]}),
+    ("attrs_name_warm", {"setup": BASE, "warm": True, "after_warm": [_sp(7, 207)], "respawn": True, "full_sample": 2500,
+                         "threads": [[["iter", ["name"]]], [["iter", ["name"]]]]}),
 ]
+ATTRS_PROGS = {name for name, prog in PROGS if any(len(it) > 1 and it[0] == "iter" for th in prog["threads"] for it in th)}
+
+
+def attrs_windows(labels):
+    """labels: the scheduling points one thread passed (Explorer.ptrace). → [(pid, index, new)]: the points at which the
+    thread, if parked THERE, stands between `Process(pid)` having read the start time inside add(pid) (new PID) — or the
+    cached object having been taken from the to-do list — and the `as_dict` call of the same loop turn"""
+    out = []
+    ident_at = {}
+    for i, lab in enumerate(labels):
+        if lab is None:
+            continue
+        if lab[0] == "init" and lab[1] == "ident":
+            ident_at[lab[2]] = i
+        elif lab[0] == "gen" and lab[1] == "as_dict":
+            pid = lab[2]
+            j = ident_at.pop(pid, None)
+            if j is not None:
+                out.extend((pid, x, True) for x in range(j + 1, i + 1))
+            else:
+                out.extend((pid, x, False) for x in (i - 1, i))
+    return out
+
+
+def vanish_plans(ex, prog, full):
+    """the directed schedules: thread t (iterating with attrs) is parked inside the window of PID p, `exit p` happens at
+    that hand-over, the other thread runs 0 / half / all of its points (or had run some before); t then calls as_dict"""
+    plans = []
+    hits = 0
+    for t, th in enumerate(prog["threads"]):
+        if not any(it[0] == "iter" and len(it) > 1 and it[1] is not None for it in th):
+            continue
+        o = 1 - t
+        ex.ptrace = {}
+        try:
+            probe = ex.run(prog, [(t, None, None, [])])     # t alone, on the cache as the program starts with it
+            labels = ex.ptrace.get(t, [])
+        finally:
+            ex.ptrace = None
+        if probe.get("problem"):
+            continue
+        no = probe["points"][str(o)]["points"]
+        for pid, idx, new in attrs_windows(labels):
+            hits += new
+            ev = [{"k": "exit", "pid": pid}]
+            plans.append([(t, "points", idx, []), (o, "points", 0, ev), (t, None, None, [])])
+            plans.append([(t, "points", idx, []), (o, None, None, ev), (t, None, None, [])])
+            plans.append([(o, "points", max(1, no // 3), []), (t, "points", idx, []), (o, None, None, ev), (t, None, None, [])])
+            if full:
+                plans.append([(t, "points", idx, []), (o, "points", no // 2, ev), (t, None, None, [])])
+                plans.append([(o, "points", 2, []), (t, "points", idx, []), (o, "points", no // 2, ev), (t, None, None, [])])
+                plans.append([(o, None, None, []), (t, "points", idx, []), (o, None, None, ev), (t, None, None, [])])
+    return plans, hits
 
 
 def two_preemption_plans(na, nb, events=True):
@@ -544,12 +679,13 @@ def model_history(prog, run):
             outs.append({"kind": "unit"})
         elif e[0] == "iter":
             gen_of[e[1]] = g
-            h.append({"op": "iter", "attrs": None})
+            h.append({"op": "iter", "attrs": e[2] if len(e) > 2 else None})
             outs.append({"kind": "gen", "g": g})
             g += 1
         elif e[0] == "next":
             h.append({"op": "next", "g": gen_of[e[1]], "mid": []})
-            outs.append({"kind": "stop"} if e[2] is None else {"kind": "yield", "obj": e[2][1], "pid": e[2][0], "info": None})
+            outs.append({"kind": "stop"} if e[2] is None else {"kind": "yield", "obj": e[2][1], "pid": e[2][0],
+                                                               "info": e[3] if len(e) > 3 else None})
         elif e[0] == "clear":
             h.append({"op": "cache_clear"})
             outs.append({"kind": "unit"})
@@ -623,6 +759,7 @@ def compare_drain(ctx, items):
 
 
 FINE_BASE = 1000000
+RESPAWN_START = 7000
 
 
 def fine_line(rec):
@@ -637,11 +774,13 @@ def fine_line(rec):
     def r(pid, oid):
         return ref[oid] if oid in ref else FINE_BASE + pid
     listing = rec["listing"] or []
-    failed_new = {pid for pid, new in rec["nsp"] if new}
+    failed_new = {pid for pid, at_create in rec["nsp"] if at_create}       # NoSuchProcess out of Process(pid)
+    failed_fill = {pid for pid, at_create in rec["nsp"] if not at_create}  # NoSuchProcess out of as_dict
+    has_attrs = bool(rec.get("has_attrs"))
     ls = rec["ls"] or []
-    touches = [{"create": None if (oid is None and pid in failed_new) else 0, "fill": True} for pid, oid in ls]
+    touches = [{"create": None if (oid is None and pid in failed_new) else 0, "fill": pid not in failed_fill} for pid, oid in ls]
     line = {"op": "fine", "copy": [{"pid": pid, "ref": ref[oid]} for pid, oid in rec["copy"]], "listing": listing,
-            "popped": rec["popped"], "pop_err": rec["pop_err"], "invalid": False, "has_attrs": False, "base": FINE_BASE,
+            "popped": rec["popped"], "pop_err": rec["pop_err"], "invalid": False, "has_attrs": has_attrs, "base": FINE_BASE,
             "touches": touches}
     real = {"todo": [[pid, None if oid is None else r(pid, oid)] for pid, oid in ls],
             "yields": [[pid, r(pid, oid)] for pid, oid in rec["yields"]],
@@ -664,10 +803,17 @@ def compare_fine(ctx, items):
             tags.append(tag)
     outs = ctx.driver().batch(lines) if lines else []
     diffs = []
-    stats = {"popped": 0, "new_pid_vanished": 0, "stale_copy": 0}
+    stats = {"popped": 0, "new_pid_vanished": 0, "stale_copy": 0, "has_attrs": 0, "new_pid_vanished_after_init": 0,
+             "cached_pid_vanished_at_as_dict": 0}
     for tag, line, real, m in zip(tags, lines, reals, outs):
         stats["popped"] += bool(line["popped"])
         stats["new_pid_vanished"] += any(t["create"] is None for t in line["touches"])
+        if line["has_attrs"]:
+            stats["has_attrs"] += 1
+            lost = [(oid is None) for (pid, oid), t in zip(real["todo"], line["touches"])
+                    if t["create"] is not None and not t["fill"]]
+            stats["new_pid_vanished_after_init"] += any(lost)
+            stats["cached_pid_vanished_at_as_dict"] += any(not x for x in lost)
         stats["stale_copy"] += bool({c["pid"] for c in line["copy"]} - set(line["listing"]))
         if "bad" in m:
             diffs.append((tag, line, real, m))
@@ -739,20 +885,47 @@ def explore(ctx, res, impl, full=False, budget=60):
             reported = set()
             plans2 = two_preemption_plans(na + 2, nb + 2, events=True)
             plans3 = item_plans(ia, ib)
+            directed = pname in ATTRS_PROGS
             if not full:
-                plans2 = _stratified(plans2, budget, ctx.rng)
-                plans3 = _stratified(plans3, max(10, budget // 3), ctx.rng)
+                # the attrs programs get their directed schedules in full; the undirected sample is halved for them
+                plans2 = _stratified(plans2, budget // 2 if directed else budget, ctx.rng)
+                plans3 = _stratified(plans3, max(10, budget // (6 if directed else 3)), ctx.rng)
+            elif prog.get("full_sample"):
+                # thorough-tier budget: this program's two-pre-emption lattice is sampled (its directed and item-boundary
+                # schedules are complete); said so in `preempt_exhaustive`
+                plans2 = _stratified(plans2, prog["full_sample"], ctx.rng)
+            plansv = []
+            if directed:
+                plansv, nwin = vanish_plans(ex, prog, full)
+                res.count("preempt_vanish_windows:%s" % pname, nwin)
+                if not nwin:
+                    res.disagree("model", {"preempt": {"program": pname, "plan": "probe"}}, "no window", None, None,
+                                 note="bounded-pre-emption explorer: no scheduling point found between Process(pid) inside "
+                                      "add(pid) and the as_dict call of process_iter(attrs=...) — the directed schedules "
+                                      "(new PID vanishes after Process._init) cannot be placed any more")
             oso = exo.run(prog, [])
             oa, ob = oso["points"]["0"]["points"], oso["points"]["1"]["points"]
-            nop = (budget * 4) if full else max(6, budget // 6)
+            nop = (budget * 4) if full else max(6, budget // (12 if directed else 6))
             planso = [[(f, "points", ctx.rng.randrange(n1 + 1), []), (1 - f, "points", ctx.rng.randrange(n2 + 1),
                                                                   ctx.rng.choice(EVENT_POOL + [[]])),
                        (f, None, None, [])]
                       for f, n1, n2 in [((0, oa, ob) if ctx.rng.random() < 0.5 else (1, ob, oa)) for _ in range(nop)]]
-            for kind, explorer, plans in (("2-switch", ex, plans2), ("item-3-switch", ex, plans3),
-                                          ("opcode-2-switch", exo, planso)):
+            vanished_after_init = 0
+            for kind, explorer, plans in (("vanish-after-init", ex, plansv), ("2-switch", ex, plans2),
+                                          ("item-3-switch", ex, plans3), ("opcode-2-switch", exo, planso)):
+                if kind == "2-switch" and directed and plansv and not vanished_after_init:
+                    res.disagree("model", {"preempt": {"program": pname, "plan": "vanish-after-init"}}, 0, None, None,
+                                 note="bounded-pre-emption explorer: none of the %d directed schedules made as_dict raise "
+                                      "NoSuchProcess for a PID whose Process(pid) had just succeeded — the path add(pid) ok → "
+                                      "as_dict NoSuchProcess → remove(pid) is no longer exercised" % len(plansv))
                 for plan in plans:
                     run = explorer.run(prog, plan)
+                    if kind == "vanish-after-init":
+                        hit = any(r.get("has_attrs") and any(not c for _, c in r["nsp"]) and r["ls"] is not None
+                                  and any(oid is None and (pid, False) in r["nsp"] for pid, oid in r["ls"])
+                                  for r in run.get("fine", []))
+                        vanished_after_init += hit
+                        res.count("preempt_directed:new_pid_vanished_after_init", int(hit))
                     total += 1
                     res.count("preempt:%s:%s" % (pname, kind))
                     res.case(("preempt", pname, kind, plan), nontrivial=True)
@@ -787,8 +960,11 @@ def explore(ctx, res, impl, full=False, budget=60):
                 "every schedule with at most two pre-emptions of %d two-thread programs at line + shared-global-bytecode "
                 "granularity without kernel events, and with each of %d event sets at either hand-over on a 1/6 sub-lattice "
                 "of (a, b); every item-boundary schedule with three pre-emptions x event placements (also run through the "
-                "Lean model); opcode granularity sampled"
-                % (len(PROGS), len(EVENT_POOL)))
+                "Lean model); opcode granularity sampled; programs %r: a stratified sample of the two-pre-emption lattice instead; "
+                "programs %r: in addition every directed schedule 'exit of PID p while the attrs thread stands between "
+                "Process(p) inside add(p) and as_dict' (also in the quick tier)"
+                % (len([1 for _, pr in PROGS if not pr.get("full_sample")]), len(EVENT_POOL),
+                   sorted(n for n, pr in PROGS if pr.get("full_sample")), sorted(ATTRS_PROGS)))
     finally:
         sys.setswitchinterval(old)
     return total
